@@ -40,7 +40,6 @@ abbrev EnvTyped := RbModel.RecL.Spec.EnvTyped
 abbrev NoNul := RbModel.RecL.Spec.NoNul
 abbrev NoNulVal := RbModel.RecL.Spec.NoNulVal
 abbrev PathTyped := RbModel.RecL.Spec.PathTyped
-abbrev CanStore := RbModel.RecL.Spec.CanStore
 
 /-- the static tables of a program: the record types, the declared types of the variables -/
 structure Scope where
@@ -511,7 +510,8 @@ def TargetWf (sc : Scope) (tg : ReadTarget) : Prop := sc.slots[tg.x]? = some (.s
 
 mutual
 /-- well-formed statements: a `DIM` names the slot's declared type (a type of the table); an assignment goes to a declared
-location of the type the statement carries and the linter accepts the conversion; READ targets and FOR counters are
+location of the type the statement carries (whatever the static type of the right-hand side: a conversion the linter
+would reject is the same Type mismatch on both sides); READ targets and FOR counters are
 scalar variables used at their declared type (a FOR counter is not a string); expressions are well formed; conditions of
 IF / WHILE / DO are numbers; a missing ELSE part is empty; DATA does not occur (it is hoisted: see the program theorem) -/
 def Wf (sc : Scope) : SStmt → Prop
@@ -519,7 +519,7 @@ def Wf (sc : Scope) : SStmt → Prop
   | .comment => True
   | .seq a b => Wf sc a ∧ Wf sc b
   | .dim x t _ => sc.slots[x]? = some t ∧ (expand sc.types t).isSome
-  | .assign x path t e _ => PathTyped sc.types sc.slots x path t ∧ EWf sc e ∧ CanStore e.ty t
+  | .assign x path t e _ => PathTyped sc.types sc.slots x path t ∧ EWf sc e
   | .print items _ => ItemsWf sc items
   | .ifBlock c thn elifs hasElse els _ =>
     EWf sc c ∧ NumTy c.ty ∧ Wf sc thn ∧ WfElifs sc elifs ∧ Wf sc els ∧ (hasElse = false → els = .skip)
@@ -759,7 +759,7 @@ theorem fixLength_eq_padTrunc (cs : List Char) (n : Nat) (h : Char.ofNat 0 ∉ c
 nothing, `Cast t` or `FixLength n` -/
 theorem conv_tail (code : Code) (sc : Scope) (s : St) (st tt : ETy) (p : Pos) (τ : Vm) (v : RRV)
     (hc : CodeAt code τ.pc (if st = tt then [] else convInstr tt p)) (hr : Rel sc s τ)
-    (ha : ValRel v τ.regs.a) (hn : NoNul v) (hcs : CanStore st tt) :
+    (ha : ValRel v τ.regs.a) (hn : NoNul v) :
     RvPost code sc (if st = tt then ([] : Code) else convInstr tt p).length τ.pc s τ (RecL.Ref.conv p st tt v) := by
   unfold RecL.Ref.conv
   by_cases hty : st = tt
@@ -821,8 +821,7 @@ theorem len_path (x : Nat) (path : List String) (p : Pos) : (compilePath x path 
 `generate_expression_instructions_casting` -/
 theorem exprToE_correct (code : Code) (sc : Scope) (e : RecL.Expr) (hE : RvSpec code sc e) (t : ETy) (off : Nat)
     (s : St) (σ : Vm)
-    (hc : CodeAt code off (compileExprToE e t)) (hpc : σ.pc = off) (hr : Rel sc s σ) (hw : EWf sc e)
-    (hcs : CanStore e.ty t) :
+    (hc : CodeAt code off (compileExprToE e t)) (hpc : σ.pc = off) (hr : Rel sc s σ) (hw : EWf sc e) :
     RvPost code sc (compileExprToE e t).length off s σ (RecL.Ref.evalTo s.env e t) := by
   simp only [compileExprToE] at hc
   have he := hE off s σ hc.append_left hpc hr hw
@@ -838,7 +837,7 @@ theorem exprToE_correct (code : Code) (sc : Scope) (e : RecL.Expr) (hE : RvSpec 
       have := hc.append_right
       rw [hp]; exact this
     have hnn : NoNul v := eval_noNul hr.nonul e v hw hev
-    have := conv_tail code sc s e.ty t e.pos τ v hct hrel ha hnn hcs
+    have := conv_tail code sc s e.ty t e.pos τ v hct hrel ha hnn
     simp only [RecL.Ref.ERes.bind]
     generalize RecL.Ref.conv e.pos e.ty t v = r2 at this ⊢
     cases r2 with
@@ -849,8 +848,7 @@ theorem exprToE_correct (code : Code) (sc : Scope) (e : RecL.Expr) (hE : RvSpec 
       obtain ⟨υ, st2, hp2, ha2, hrel2, hss2⟩ := this
       exact ⟨υ, st.trans st2, by rw [hp2, hp]; omega, ha2, hrel2, hss.trans hss2⟩
 
-/-- a scalar conversion needs no premise on the static types: a string where a number is expected (or the reverse) is the
-same Type mismatch on both sides -/
+/-- the same for a built-in target, stated on its own for the FOR bounds -/
 theorem conv_tail_sc (code : Code) (sc : Scope) (s : St) (st : ETy) (t : Ty) (p : Pos) (τ : Vm) (v : RRV)
     (hc : CodeAt code τ.pc (if st = .sc t then [] else convInstr (.sc t) p)) (hr : Rel sc s τ)
     (ha : ValRel v τ.regs.a) :
